@@ -572,3 +572,5 @@ for kd, q, th in (("line", 4, 80), ("tri", 10, 320), ("quad", 10, 320), ("tet", 
     FAMILIES.append(Family("divergence-" + kd, fam(divergence, kd), q, th))
 for kd, q, th in (("line", 4, 80), ("tri", 8, 240), ("tet", 6, 160)):
     FAMILIES.append(Family("affine-vs-iso-" + kd, fam(affine_vs_iso, kd), q, th))
+
+SUITE = True   # thorough tier also runs the repository suite with this oracle attached (rv/suite_monitors.py)
